@@ -2,6 +2,7 @@
   Lemmas and the tactic used by the generated tie theorems (`Gen/Tie.lean`).
 -/
 import ImapVerif.Gen.Comb
+import ImapVerif.Gen.AltSwap
 import ImapVerif.Gen.Fix
 import ImapVerif.Grammar.Rfc3501
 
